@@ -42,3 +42,19 @@ func gqlRun(ctx context.Context, schema *graphql.Schema, query string, vars map[
 }
 
 var _ = schemabuilder.NewSchema
+
+// gqlRunSched is gqlRun with a given work scheduler.
+func gqlRunSched(ctx context.Context, schema *graphql.Schema, query string, vars map[string]interface{}, sched graphql.WorkScheduler) (out interface{}, err error) {
+	q, err := graphql.Parse(query, vars)
+	if err != nil {
+		return nil, err
+	}
+	if err = graphql.PrepareQuery(ctx, schema.Query, q.SelectionSet); err != nil {
+		return nil, err
+	}
+	v, err := graphql.NewExecutor(sched).Execute(batch.WithBatching(ctx), schema.Query, nil, q)
+	if err != nil {
+		return nil, err
+	}
+	return internal.AsJSON(v), nil
+}
